@@ -300,6 +300,14 @@ def run(ctx, R):
                                         states.add("Some(" + s2 + ")" if not s2.startswith("Some(") or True else s2)
     need = {"None", "Some(None)"}
     have_some_some = any(s.startswith("Some(Some") for s in states)
+    # the value outlives the clause that stores it: an unbound variable of the environment (a stack cell) is moved to the
+    # heap before it is stored, the way term_variables/2 does
+    sbb = F.hir(sb)["body"]
+    glob = [n for n in walk(sbb) if n["k"] == "If" and any(x["k"] == "MethodCall" and x["name"] == "is_stack_var" for x in walk(n["cond"]))
+            and any(x["k"] == "MethodCall" and x["name"] == "bind" for x in walk(n["then"]))]
+    R.ob("C11:bb_b_put:value-stored-is-not-an-environment-variable", len(glob) >= 1,
+         "store_backtrackable_global_var stores the dereferenced argument as it is: for an unbound variable of the calling clause's environment that is a reference "
+         "into the stack, dead once the clause returns (a :- bb_b_put(k, X), p(X). ?- a, bb_get(k, V). reads a stale stack slot and answers V = k)", F.where(sb))
     R.ob("C11:bb_b_put:distinguishes-states", need <= states and have_some_some and not top_wild,
          "store_backtrackable_global_var must treat 'key absent', 'key present without backtrackable value' (keeps the bb_put value) and "
          "'key present with value' separately; found states %s%s" % (sorted(states), " with a catch-all arm" if top_wild else ""), F.where(sb))
